@@ -49,6 +49,11 @@ pub mod io {
         requires #[trigger] has_resolved(w)
         ensures w.fin() == w.written()
     { w.resolve_law(); }
+    /// T5b (assumed): lending a sink (`&mut writer`) to another writer function does not change what the sink will
+    /// finally contain. True for every function that only calls write_all or lends the sink on (all writer functions
+    /// of seq_io do, by inspection); it would be false for code that replaces `*w` by another sink.
+    pub broadcast axiom fn axiom_lend_keeps_fin<W: Write>(w: &mut W)
+        ensures #[trigger] (*final(w)).fin() == (*old(w)).fin();
     } // verus!
 }
 
